@@ -559,6 +559,20 @@ def check(ctx):
     for e in step_events["project"]:
         bb = e.data["bound"] or {}
         pv = bb.get("plane")
+        if pv is not None and pv.op == "ite":
+            # `plane = Plane(opt) if opt else None` ... `if plane: project`:
+            # the alternative this call site can be reached with
+            lits = set(e.live.args) if e.live.op == "and" else {e.live}
+            for _ in range(3):
+                if pv.op != "ite":
+                    break
+                if pv.args[0] in lits or tm.is_const(pv.args[2], None):
+                    pv = pv.args[1]
+                elif tm.mk_not(pv.args[0]) in lits or \
+                        tm.is_const(pv.args[1], None):
+                    pv = pv.args[2]
+                else:
+                    break
         ok = pv is not None and pv.op == "call" and pv.args[1] and \
             pv.args[1][0] is A("project_to_plane")
         ctx.ob("C15.3", e, ok,
@@ -1259,6 +1273,18 @@ def _subjects(ctx, f, res, step_events, ref_traj):
                if (e.data.get("name") or "").endswith(fn)]
         got = set().union(*[of(e) for e in evs]) if evs else set()
         ok = {"est", "ref"} <= got
+        if not ok and got <= {"other", "none"}:
+            # no export call of that writer is read with its subject (the
+            # exports go through a worker function / functools.partial)
+            if [e for e in res.events if e.kind == "call" and fn in (
+                    fmt(x) for x in e.data.get("args") or ())] or any(
+                    fn in fmt(v_)[:200] for e in res.events
+                    if e.kind == "call"
+                    for v_ in list(e.data.get("args") or ())):
+                ctx.undecidable("C15.9", f, f"export as {k}: the writer is "
+                                f"handed to a worker function; who is "
+                                f"written is not read")
+                continue
         ctx.ob("C15.9", evs[0] if evs else f, ok,
                f"export as {k}: every given trajectory and the reference "
                f"are written" if ok else
